@@ -1796,15 +1796,19 @@ class Interp:
 
     def ev_DictComp(self, n, env):
         d = ADict({})
-        if len(n.generators) != 1:
-            raise Unsupported("nested dict comprehension")
-        g = n.generators[0]
-        for x in self.iterate(self.eval(g.iter, env), env.mod.site(g.iter)):
-            x = x.value if isinstance(x, _Tagged) else x
-            e2 = Env(env.mod, {}, outer=env)
-            self.assign(g.target, x, e2)
-            if all(self.truthy(self.eval(c_, e2), env.mod.site(c_)) for c_ in g.ifs):
-                d.items[self.dict_key(d, self.eval(n.key, e2), env.mod.site(n))] = self.eval(n.value, e2)
+
+        def rec(gi, e):
+            if gi == len(n.generators):
+                d.items[self.dict_key(d, self.eval(n.key, e), env.mod.site(n))] = self.eval(n.value, e)
+                return
+            g = n.generators[gi]
+            for x in self.iterate(self.eval(g.iter, e), env.mod.site(g.iter)):
+                x = x.value if isinstance(x, _Tagged) else x
+                e2 = Env(env.mod, {"__comp__": True}, outer=e)
+                self.assign(g.target, x, e2)
+                if all(self.truthy(self.eval(c_, e2), env.mod.site(c_)) for c_ in g.ifs):
+                    rec(gi + 1, e2)
+        rec(0, env)
         return d
 
     def ev_Lambda(self, n, env):
